@@ -12,6 +12,17 @@ import _execlib
 
 def run(ctx):
     _execlib.run_exec(ctx, "C25")
+    # a run must not affect later runs: sequential histories of requests on one loaded model (TLC-generated
+    # class histories incl. "the previous request plus a value for an intermediate node"); every result must
+    # equal the result of the same call made alone on a fresh model and the naive evaluation in TLA+
+    import _reqlib
+    h = ctx.path("class_hist.jsonl")
+    nh = ctx.tlc_generate("graph/RequestClasses", "graph/RequestClasses2.cfg" if ctx.quick else "graph/RequestClasses3.cfg", h, workers=4)
+    t = ctx.path("req_hist.ndjson")
+    ctx.harness("vh-graph", ["requests", "--mode", "seq", "--hist", h, "--out", t])
+    stats = _reqlib.validate(ctx, [t], "C25", "vh-graph requests")
+    ctx.cov["request_histories"] = nh
+    ctx.cov["evaluations"] += stats["calls"]
     ctx.finish(rule="case = one TLC-generated graph with a history of 9 runs; evaluations = runs; distinct_nontrivial = distinct graphs with >= 1 in-place capable operator",
                assumptions=["integer data (bit-identical = equal integers); multi-threaded float rounding is outside this check",
                             "constants are read back through the rten::verif hook after every run"],
